@@ -533,6 +533,10 @@ class SequenceEncoder(AbstractItemEncoder):
         # at the inner value of a CHOICE only (not at the alternative), is
         # sensitive to the order of SET OF members and raises for records
         # that hold an absent component differently
+        # (both sides in full: whether empty members may be left out is
+        # a matter of the enclosing OPTIONAL field, not of the comparison)
+        options = dict(options, ifNotEmpty=False)
+
         try:
             return (encodeFun(component, **options) ==
                     encodeFun(defaultValue, **options))
